@@ -78,7 +78,6 @@ def shape_report() -> List[Tuple[str, bool, str]]:
         "update": find_method(class_def(rw, "RewardFunction"), "update"),
         "update_agents": find_method(class_def(gm, "PrimaiteGame"), "update_agents"),
         "setup_reward_sharing": find_method(class_def(gm, "PrimaiteGame"), "setup_reward_sharing"),
-        "access_from_nested_dict": find_function(parse("game/agent/utils.py"), "access_from_nested_dict"),
         "update_reward": find_method(class_def(parse("game/agent/interface.py"), "AbstractAgent"), "update_reward"),
         "save_reward_to_history": find_method(class_def(parse("game/agent/interface.py"), "AbstractAgent"), "save_reward_to_history"),
     }
@@ -90,7 +89,7 @@ def shape_report() -> List[Tuple[str, bool, str]]:
 
 
 def emit() -> str:
-    from harness.extract.reward_calc import translate_calculate
+    from harness.extract.reward_calc import translate_calculate, translate_function
     rw = parse("game/agent/rewards.py")
     shapes = shape_report()
     shape_ok = {k: ok for k, ok, _ in shapes}
@@ -107,6 +106,10 @@ def emit() -> str:
             if ast.unparse(d.annotation) != "float" or d.value is None:
                 raise ValueError(f"{cname}.reward is not `reward: float = <literal>`")
             memory_defaults.append((cname, lean_rat(d.value)))
+    # `access_from_nested_dict(dictionary, keys)`, translated like the components (recursion included)
+    afn = find_function(parse("game/agent/utils.py"), "access_from_nested_dict")
+    calc_defs.append("/-- `access_from_nested_dict(dictionary, keys)` (game/agent/utils.py), translated from the source -/\n"
+                     "def fn_access_from_nested_dict : Py.Stmt :=\n  " + translate_function(afn, ["dictionary", "keys"]))
     # sticky defaults
     sticky = []
     for cname, _disc, cls in classes:
@@ -185,6 +188,5 @@ def agentRewardPlumbing : Bool := {b(shape_ok["update_reward"] and shape_ok["sav
 def setupRewardSharingShape : Bool := {b(shape_ok["setup_reward_sharing"])}
 def topoSortIsPostOrder : Bool := {b(shape_ok["topological_sort"])}
 def cycleSearchShape : Bool := {b(shape_ok["graph_has_cycle"])}
-def accessFromNestedDictShape : Bool := {b(shape_ok["access_from_nested_dict"])}
 end Primaite.Gen.Reward
 """
